@@ -444,6 +444,92 @@ fn simple_found(prop: &str, rule: &str, detail: String) -> Found {
     }
 }
 
+/// Every constructor / builder / setter order must hand the requested sizes and ratios to the
+/// parts: "stays within its configured bound" (C01) and the quota arithmetic of C08 presuppose
+/// that the configured values arrive. Judged through the hooks and the public cap accessors.
+pub fn config_propagation(out: &mut ShardOut, prop: &str) {
+    use caches::{AdaptiveCache, AdaptiveCacheBuilder, Cache, SegmentedCache, SegmentedCacheBuilder, TwoQueueCache, TwoQueueCacheBuilder};
+    let h = || DynBH::new(HKind::Fnv);
+    let mut bad: Option<String> = None;
+    let mut note = |cov: &mut Cov, what: &str| {
+        cov.monitored += 1;
+        cov.triples.insert(format!("config|{}", what));
+    };
+    // ---- SegmentedCache
+    if matches!(prop, "C01" | "C07") {
+        for &(a, b) in &[(1usize, 1usize), (1, 3), (3, 1), (2, 5), (7, 2)] {
+            let mut chk = |name: &str, c: &dyn Fn() -> Option<(usize, usize, usize, usize, usize)>| {
+                if let Some((pc, tc, plc, tlc, cap)) = c() {
+                    if (pc, tc, plc, tlc, cap) != (a, b, a, b, a + b) {
+                        bad = Some(format!("{} for probationary {} / protected {}: probationary_cap() {} protected_cap() {} real list caps {} / {} cap() {}", name, a, b, pc, tc, plc, tlc, cap));
+                    }
+                }
+            };
+            fn view<FH: std::hash::BuildHasher, RH: std::hash::BuildHasher>(c: &SegmentedCache<u32, u32, FH, RH>) -> (usize, usize, usize, usize, usize) {
+                (c.probationary_cap(), c.protected_cap(), c.verif_probationary().cap(), c.verif_protected().cap(), c.cap())
+            }
+            chk("SegmentedCache::new", &|| SegmentedCache::<u32, u32>::new(a, b).ok().map(|c| view(&c)));
+            chk("builder(a,b).finalize", &|| SegmentedCache::<u32, u32>::builder(a, b).finalize::<u32, u32>().ok().map(|c| view(&c)));
+            chk("default().set_probationary_size.set_protected_size", &|| SegmentedCacheBuilder::default().set_probationary_size(a).set_protected_size(b).finalize::<u32, u32>().ok().map(|c| view(&c)));
+            chk("default().set_protected_size.set_probationary_size", &|| SegmentedCacheBuilder::default().set_protected_size(b).set_probationary_size(a).finalize::<u32, u32>().ok().map(|c| view(&c)));
+            chk("new(a,b).set_probationary_hasher.set_protected_hasher", &|| SegmentedCacheBuilder::new(a, b).set_probationary_hasher(h()).set_protected_hasher(h()).finalize::<u32, u32>().ok().map(|c| view(&c)));
+            chk("new(a,b).set_protected_hasher.set_probationary_hasher", &|| SegmentedCacheBuilder::new(a, b).set_protected_hasher(h()).set_probationary_hasher(h()).finalize::<u32, u32>().ok().map(|c| view(&c)));
+            chk("set_protected_hasher then sizes", &|| SegmentedCacheBuilder::default().set_protected_hasher(h()).set_probationary_size(a).set_probationary_hasher(h()).set_protected_size(b).finalize::<u32, u32>().ok().map(|c| view(&c)));
+            chk("from_builder", &|| SegmentedCache::<u32, u32, _, _>::from_builder(SegmentedCacheBuilder::new(a, b).set_protected_hasher(h())).ok().map(|c| view(&c)));
+            note(&mut out.cov, &format!("slru|{}-{}", a, b));
+        }
+    }
+    // ---- TwoQueueCache
+    if matches!(prop, "C01" | "C08") {
+        fn view<RH: std::hash::BuildHasher, FH: std::hash::BuildHasher, GH: std::hash::BuildHasher>(c: &TwoQueueCache<u32, u32, RH, FH, GH>) -> (usize, usize, usize, usize, usize) {
+            (c.cap(), c.verif_recent().cap(), c.verif_frequent().cap(), c.verif_recent_quota(), c.verif_ghost().cap())
+        }
+        for &(n, rr, gr) in &[(4usize, 0.25f64, 0.5f64), (10, 0.2, 0.8), (10, 0.8, 0.2), (3, 0.0, 1.0), (7, 1.0, 0.34), (16, 0.3, 0.4), (5, 0.5, 0.5)] {
+            let exp = (n, n, n, ((n as f64) * rr).floor() as usize, ((n as f64) * gr).floor() as usize);
+            let mut chk = |name: &str, got: Option<(usize, usize, usize, usize, usize)>, e: (usize, usize, usize, usize, usize)| {
+                if let Some(g) = got {
+                    if g != e {
+                        bad = Some(format!("{} (size {}, recent ratio {}, ghost ratio {}): (cap, recent cap, frequent cap, recent quota, ghost bound) = {:?}, expected {:?}", name, n, rr, gr, g, e));
+                    }
+                }
+            };
+            chk("with_2q_parameters", TwoQueueCache::<u32, u32>::with_2q_parameters(n, rr, gr).ok().map(|c| view(&c)), exp);
+            chk("with_recent_ratio", TwoQueueCache::<u32, u32>::with_recent_ratio(n, rr).ok().map(|c| view(&c)), (n, n, n, exp.3, ((n as f64) * 0.5).floor() as usize));
+            chk("with_ghost_ratio", TwoQueueCache::<u32, u32>::with_ghost_ratio(n, gr).ok().map(|c| view(&c)), (n, n, n, ((n as f64) * 0.25).floor() as usize, exp.4));
+            chk("new", TwoQueueCache::<u32, u32>::new(n).ok().map(|c| view(&c)), (n, n, n, ((n as f64) * 0.25).floor() as usize, ((n as f64) * 0.5).floor() as usize));
+            chk("builder: ratios then hashers", TwoQueueCacheBuilder::new(n).set_recent_ratio(rr).set_ghost_ratio(gr).set_recent_hasher(h()).set_frequent_hasher(h()).set_ghost_hasher(h()).finalize::<u32, u32>().ok().map(|c| view(&c)), exp);
+            chk("builder: hashers then ratios", TwoQueueCacheBuilder::new(n).set_ghost_hasher(h()).set_frequent_hasher(h()).set_recent_hasher(h()).set_ghost_ratio(gr).set_recent_ratio(rr).finalize::<u32, u32>().ok().map(|c| view(&c)), exp);
+            chk("builder: default().set_size last", TwoQueueCacheBuilder::default().set_recent_ratio(rr).set_frequent_hasher(h()).set_ghost_ratio(gr).set_size(n).finalize::<u32, u32>().ok().map(|c| view(&c)), exp);
+            chk("from_builder", TwoQueueCache::<u32, u32, _, _, _>::from_builder(TwoQueueCache::<u32, u32>::builder(n).set_recent_ratio(rr).set_recent_hasher(h()).set_ghost_ratio(gr)).ok().map(|c| view(&c)), exp);
+            note(&mut out.cov, &format!("twoq|{}-{}-{}", n, rr, gr));
+        }
+    }
+    // ---- AdaptiveCache
+    if matches!(prop, "C01" | "C09") {
+        fn view<A: std::hash::BuildHasher, B: std::hash::BuildHasher, C: std::hash::BuildHasher, D: std::hash::BuildHasher>(c: &AdaptiveCache<u32, u32, A, B, C, D>) -> (usize, usize, usize, usize, usize, usize) {
+            (c.cap(), c.verif_recent().cap(), c.verif_frequent().cap(), c.verif_recent_evict().cap(), c.verif_frequent_evict().cap(), c.partition())
+        }
+        for &n in &[1usize, 2, 5, 16] {
+            let exp = (n, n, n, n, n, 0);
+            let mut chk = |name: &str, got: Option<(usize, usize, usize, usize, usize, usize)>| {
+                if let Some(g) = got {
+                    if g != exp {
+                        bad = Some(format!("{} (size {}): (cap, recent, frequent, recent ghost, frequent ghost bounds, p) = {:?}, expected {:?}", name, n, g, exp));
+                    }
+                }
+            };
+            chk("new", AdaptiveCache::<u32, u32>::new(n).ok().map(|c| view(&c)));
+            chk("builder(n)", AdaptiveCache::<u32, u32>::builder(n).finalize::<u32, u32>().ok().map(|c| view(&c)));
+            chk("default().set_size + hashers", AdaptiveCacheBuilder::default().set_recent_hasher(h()).set_size(n).set_frequent_evict_hasher(h()).set_frequent_hasher(h()).set_recent_evict_hasher(h()).finalize::<u32, u32>().ok().map(|c| view(&c)));
+            chk("from_builder", AdaptiveCache::<u32, u32, _, _, _, _>::from_builder(AdaptiveCacheBuilder::new(n).set_frequent_hasher(h())).ok().map(|c| view(&c)));
+            note(&mut out.cov, &format!("arc|{}", n));
+        }
+    }
+    if let Some(d) = bad {
+        out.add(simple_found(prop, "config-propagation", d));
+    }
+}
+
 /// C10: every constructor must hand the requested sizes and sample size to the parts (the
 /// reset schedule of the estimator is part of "records one access ... for all sample sizes")
 fn wtlfu_config_propagation(out: &mut ShardOut) {
@@ -473,6 +559,45 @@ fn wtlfu_config_propagation(out: &mut ShardOut) {
         }
         out.cov.monitored += 1;
         out.cov.triples.insert(format!("config|wtlfu|new|{}-{}", n, s));
+    }
+    // the builder with every setter, in two orders
+    {
+        use caches::WTinyLFUCacheBuilder;
+        use crate::subject::DynKH;
+        let h = || DynBH::new(HKind::Fnv);
+        for &(w, t, p, s) in &[(1usize, 2usize, 3usize, 4usize), (3, 1, 2, 9), (2, 5, 1, 1)] {
+            let a = WTinyLFUCacheBuilder::<u32>::new(w, t, p, s)
+                .set_key_hasher(DynKH(DynBH::new(HKind::Ident)))
+                .set_window_hasher(h())
+                .set_protected_hasher(h())
+                .set_probationary_hasher(h())
+                .set_false_positive_ratio(0.02)
+                .finalize::<u32>();
+            let b = WTinyLFUCacheBuilder::<u32>::default()
+                .set_probationary_hasher(h())
+                .set_false_positive_ratio(0.3)
+                .set_samples(s)
+                .set_protected_hasher(h())
+                .set_probationary_cache_size(p)
+                .set_window_hasher(h())
+                .set_window_cache_size(w)
+                .set_key_hasher(DynKH(DynBH::new(HKind::Ident)))
+                .set_protected_cache_size(t)
+                .finalize::<u32>();
+            for (name, c) in [("builder new(..) + all setters", a), ("builder default() + setters in another order", b)] {
+                if let Ok(c) = c {
+                    let d = c.verif_estimator().verif_digest();
+                    let m = c.verif_main();
+                    if d.1 != s || c.window_cache_cap() != w || m.protected_cap() != t || m.probationary_cap() != p || c.cap() != w + t + p
+                        || c.verif_window().cap() != w || m.verif_protected().cap() != t || m.verif_probationary().cap() != p
+                    {
+                        bad = Some(format!("{}: window {} / protected {} / probationary {} / samples {}, requested {} / {} / {} / {}", name, c.window_cache_cap(), m.protected_cap(), m.probationary_cap(), d.1, w, t, p, s));
+                    }
+                }
+                out.cov.monitored += 1;
+            }
+            out.cov.triples.insert(format!("config|wtlfu|builder|{}-{}-{}-{}", w, t, p, s));
+        }
     }
     if let Some(d) = bad {
         out.add(simple_found("C10", "config-propagation", d));
@@ -549,6 +674,9 @@ pub fn engine_suite(ctx: &Ctx) -> ShardOut {
     let mut out = ShardOut::default();
     if ctx.prop == "C10" && ctx.shard == 0 {
         wtlfu_config_propagation(&mut out);
+    }
+    if matches!(ctx.prop.as_str(), "C01" | "C07" | "C08" | "C09") && ctx.shard == 0 {
+        config_propagation(&mut out, &ctx.prop);
     }
     if ctx.prop == "C04" {
         let mut r = Rng::new(mix(ctx.seed, 0xC04C) ^ ctx.shard);
